@@ -69,8 +69,6 @@ def invalid_box(draw, n):
 def cases(draw, ctx, layouts):
     desc = draw(files.spec_file_3d(irregular=False, max_voxels=120_000, layouts=layouts,
                                    versions=["0.1.7", "0.2.1", "0.2.2.dev", "0.2.8", "0.2.8", "1.0.0"]))
-    # whole-millisecond sample axes so that coordinates are integers
-    desc["dz_us"] = draw(st.sampled_from([4000, 2000, 1000]))
     n = desc["shape"]
     bs = desc["blockshape"]
     kind = draw(st.sampled_from(["valid", "valid", "valid", "invalid"]))
@@ -101,14 +99,19 @@ def cases(draw, ctx, layouts):
     return case
 
 
-def to_coords(T, box, k, offaxis=False):
+def to_coords(T, box, k, offaxis=False, zaxis=None):
     if box is None:
         return None
     ax = [T.ilines, T.xlines, T.samples][k]
+    if k == 2 and zaxis is not None:
+        # sample coordinates are floats: take the value the reader itself reports for that sample (already
+        # checked to be the source's within rounding), so that the lookup is by an exact axis value
+        ax = zaxis
     inc = ax[1] - ax[0]
 
     def c(i):
-        v = ax[i] if i < len(ax) else ax[-1] + inc
+        # one past the end: "last value plus the last step", the expression a caller has to write for a float axis
+        v = ax[i] if i < len(ax) else ax[-1] + (ax[-1] - ax[-2] if len(ax) > 1 else inc)
         return int(v) if k < 2 or float(v).is_integer() else float(v)
     lo, hi = c(box[0]), c(box[1])
     if offaxis:
@@ -140,7 +143,10 @@ def run_case(case, ctx):
             if case["by"] == "index":
                 cropper.write_cropped_file_by_indexes(out, box[0], box[1], box[2])
             else:
-                cb = [to_coords(T, box[k], k, offaxis=(case.get("offaxis") == k)) for k in range(3)]
+                zaxis = np.array(cropper.zslices, dtype=np.float64)
+                if len(zaxis) != len(T.samples) or (np.abs(zaxis - T.samples) > 1e-9 + 1e-12 * np.abs(T.samples)).any():
+                    raise Violation("source-sample-axis", f"reader reports {zaxis[:3]}.., the file states {T.samples[:3]}..")
+                cb = [to_coords(T, box[k], k, offaxis=(case.get("offaxis") == k), zaxis=zaxis) for k in range(3)]
                 cropper.write_cropped_file_by_coords(out, cb[0], cb[1], cb[2])
         except Exception as e:
             exc = e
